@@ -24,7 +24,7 @@ from .. import render_common as rc
 PROP = "C04"
 THEOREMS = ["collect_eq_firstOcc", "dedupe_eq_firstOcc", "inline_js_exactly_once", "inline_css_exactly_once",
             "inline_js_in_order_of_first_appearance", "media_js_exactly_once", "media_css_exactly_once",
-            "fragment_declares_same_set", "marker_roundtrip", "not_marker_roundtrip_unicode"]
+            "fragment_declares_same_set", "marker_roundtrip", "not_marker_roundtrip_unicode", "collect_idempotent"]
 
 PROFILE = dict(w_comp=7, w_slot=2, w_elem=2, w_for=1.5, p_required=0.0, p_malformed=0.0, p_default_flag=0.1,
                ncomp=(2, 5), p_only=0.0, p_is_filled=0.0)
